@@ -627,9 +627,9 @@ class Engine:
                 free.append(n)
         self.nloops += 1
         name = "%s_loop%d" % (self.cur_name, self.nloops)
-        self.aux.append("Definition %s %s (acc_ : %s) (it_ : %s) :=\n let %s := acc_ in\n%s." % (
+        self.aux.append("Definition %s %s (acc_ : %s) (it_ : %s) :=\n %slet %s := acc_ in\n%s." % (
             name, " ".join("(%s : %s)" % (n, self.coqty(env[vis[n]])) for n in free),
-            " * ".join("(%s)" % t for t in tys), self.coqty(src["ety"]), pat, paren(t2)))
+            " * ".join("(%s)" % t for t in tys), self.coqty(src["ety"]), self.UNIFORM, pat, paren(t2)))
         fn = "(%s)" % " ".join([name] + free)
         W.append(("let", pat, "fold_left %s %s %s" % (fn, src["list"], init)))
         for n in muts:
@@ -643,6 +643,10 @@ class Engine:
         return None
 
     COQTY = {}
+    # `let _ := (<all same-typed Section variables>) in `: makes every generated definition abstract
+    # over the same Section variables, in the same order, whatever it uses - so a source edit that
+    # exchanges two same-typed kernels changes the generated TERM, never silently the abstraction
+    UNIFORM = ""
 
     def coqty(self, ty):
         if ty.startswith("list:"):
